@@ -6,8 +6,9 @@ cd /repo || exit 9
 if [ -n "$(git status --porcelain --untracked-files=no)" ]; then echo "repo not clean"; exit 9; fi
 git apply "$PATCH" || { echo "patch does not apply"; exit 9; }
 cd /verif
-/venv/bin/python -m mc.run $PROP --tier $TIER --no-confirm 2>&1 | grep -v condarc | grep -E "VIOLATION|signature|tier=|HARNESS|KNOWN" | cut -c1-220 | head -${SEEDRUN_LINES:-14}
-rc=${PIPESTATUS[0]}
+# (the whole output is captured first: cutting it with head while the check still writes would kill the check)
+OUT=$(/venv/bin/python -m mc.run $PROP --tier $TIER --no-confirm 2>&1); rc=$?
+echo "$OUT" | grep -v condarc | grep -E "VIOLATION|signature|tier=|HARNESS|KNOWN" | cut -c1-220 | head -${SEEDRUN_LINES:-14}
 git -C /repo checkout -- . 
 find /repo -name __pycache__ -path '*commonroad*' -prune -exec rm -rf {} + 2>/dev/null
 echo "seedrun rc=$rc"
